@@ -122,7 +122,32 @@ def mk_s(parts) -> tuple:
         return EMPTY
     if len(flat) == 1 and flat[0][0] == "lit":
         return C(flat[0][1])
+    if len(flat) == 1 and flat[0][0] == "h" and _is_str(flat[0][1]):
+        return flat[0][1]  # f"{x}" is x for a string x
     return ("s", tuple(flat))
+
+
+def distribute_ifs(v):
+    """`f"{(a if c else '')}{b}"`  ->  `f"{a}{b}" if c else f"{b}"` everywhere in v: a conditional piece of text is a
+    conditional about the whole text.  Used when two values are compared (not when they are built: rules that read
+    the shape of a template want the conditional where the code has it)."""
+    if not isinstance(v, tuple) or not v:
+        return v
+    if not isinstance(v[0], str):
+        return tuple(distribute_ifs(x) if isinstance(x, tuple) else x for x in v)
+    v = (v[0],) + tuple(distribute_ifs(x) if isinstance(x, tuple) else x for x in v[1:])
+    if v[0] == "s":
+        flat = list(v[1])
+        ifs = [i for i, q in enumerate(flat) if q[0] == "h" and q[1][0] == "if" and (_is_const_str(q[1][2]) or _is_const_str(q[1][3]))]
+        if len(ifs) == 1:
+            i = ifs[0]
+            _, c, a, b = flat[i][1]
+            return mk_if(c, mk_s(flat[:i] + [("h", a)] + flat[i + 1 :]), mk_s(flat[:i] + [("h", b)] + flat[i + 1 :]))
+    return v
+
+
+def _is_const_str(v) -> bool:
+    return v[0] == "c" and isinstance(v[1], str)
 
 
 def s_parts(v):
@@ -366,6 +391,45 @@ def mk_comp(d, it, items, conds=()):
         return mk_list(out)
     # a comprehension over a known list of constants with no dependence on the element is left as is
     return ("comp", d, it, items, tuple(conds))
+
+
+def mk_fold(d, it, init, body):
+    """fold over range(a, len(X[s:]), step) reading X[s:][i + c]  ==  fold over range(a + s, len(X), step) reading
+    X[i + c]  (a, s >= 0: both ranges are empty together, and the i-th element of a tail is the (i+s)-th element)"""
+    if it[0] == "call" and it[1] == "range" and len(it[2]) in (2, 3) and not it[3]:
+        a, stop = it[2][0], it[2][1]
+        if a[0] == "c" and isinstance(a[1], int) and a[1] >= 0 and stop[0] == "call" and stop[1] == "len" and len(stop[2]) == 1:
+            sl = stop[2][0]
+            if sl[0] == "slice" and len(sl) == 4 and sl[2][0] == "c" and isinstance(sl[2][1], int) and sl[2][1] >= 0 and sl[3] == NONE:
+                X, s_ = sl[1], sl[2][1]
+                bv = ("bv", d)
+                ok = [True]
+
+                def rw(v):
+                    if not isinstance(v, tuple) or not v:
+                        return v
+                    if v[0] == "sub" and len(v) == 3 and v[1] == sl:
+                        k = v[2]
+                        if k == bv or (k[0] == "op" and k[1] == "+" and k[2] == bv and k[3][0] == "c" and isinstance(k[3][1], int) and k[3][1] >= 0):
+                            return ("sub", X, k)
+                    if v == bv or v == sl:
+                        ok[0] = False
+                        return v
+                    if isinstance(v[0], str):
+                        return (v[0],) + tuple(rw(x) if isinstance(x, tuple) else x for x in v[1:])
+                    return tuple(rw(x) if isinstance(x, tuple) else x for x in v)
+
+                nb = rw(body)
+                if ok[0] and not _has_term(init, sl):
+                    it = ("call", "range", (C(a[1] + s_), ("call", "len", (X,), ())) + tuple(it[2][2:]), ())
+                    body = nb
+    return ("fold", d, it, init, body)
+
+
+def _has_term(v, t) -> bool:
+    if v == t:
+        return True
+    return isinstance(v, tuple) and any(_has_term(x, t) for x in v if isinstance(x, tuple))
 
 
 def mk_join(sep, seq):
@@ -1248,9 +1312,9 @@ class AV:
                 if not has(new, "bv") and not has(new, "idx") and not has(new, "first"):
                     fr.env[k] = mk_if(("call", "nonempty", (it,), ()), new, old)
                 else:
-                    fr.env[k] = ("fold", d, it, old, new)
+                    fr.env[k] = mk_fold(d, it, old, new)
                 continue
-            fr.env[k] = ("fold", d, it, old, subst(new, {acc: ("acc", d)}))
+            fr.env[k] = mk_fold(d, it, old, subst(new, {acc: ("acc", d)}))
         if jumps and isinstance(r, tuple) and r and r[0] not in ("fall", "continue", "break", "mixed-exit"):
             return unk("loop with an exit that is not understood")
         return pret
@@ -1951,7 +2015,7 @@ class AV:
         else:
             init, it = mk_sub(seq, C(0)), ("slice", seq, C(1), NONE)
         body = self._apply_closure(fnv[1], (("acc", d, "<reduce>"), ("bv", d)), [], Frame(fr.func, fr.rel, fr.env, fr.depth, d))
-        return ("fold", d, it, init, subst(body, {("acc", d, "<reduce>"): ("acc", d)}))
+        return mk_fold(d, it, init, subst(body, {("acc", d, "<reduce>"): ("acc", d)}))
 
     def _textwrap(self, name, args, kw):
         if name == "dedent" and args and args[0][0] == "c" and isinstance(args[0][1], str):
@@ -2306,8 +2370,18 @@ def _attr(base, name):
     return ("attr", base, name)
 
 
+# methods whose result is a string whatever the receiver (sympy's printer API, str methods)
+STR_METHODS = {"doprint", "_print", "strip", "lstrip", "rstrip", "format", "lower", "upper", "replace", "_get_comment", "_get_statement", "_format"}
+
+
 def _is_str(v) -> bool:
-    return (v[0] == "c" and isinstance(v[1], str)) or v[0] in ("s", "join") or (v[0] == "if" and _is_str(v[2]) and _is_str(v[3])) or (v[0] == "call" and v[1] in ("indent", "dedent"))
+    return (
+        (v[0] == "c" and isinstance(v[1], str))
+        or v[0] in ("s", "join")
+        or (v[0] == "if" and _is_str(v[2]) and _is_str(v[3]))
+        or (v[0] == "call" and v[1] in ("indent", "dedent", "str", "repr"))
+        or (v[0] == "mcall" and v[2] in STR_METHODS)
+    )
 
 
 def _pairs_to_events(v):
